@@ -181,15 +181,23 @@ class CQN(RLAlgorithm):
         """
         obs = self.preprocess_observation(obs)
 
+        # Batch size (a dict / tuple observation has one entry per sub-space)
+        if isinstance(obs, dict):
+            batch_size = next(iter(obs.values())).size(0)
+        elif isinstance(obs, tuple):
+            batch_size = obs[0].size(0)
+        else:
+            batch_size = obs.size(0)
+
         # epsilon-greedy
         if random.random() < epsilon:
             if action_mask is None:
-                action = np.random.randint(0, self.action_dim, size=len(obs))
+                action = np.random.randint(0, self.action_dim, size=batch_size)
             else:
                 action = np.argmax(
                     np.where(
                         np.asarray(action_mask, dtype=bool),
-                        np.random.uniform(0, 1, (len(obs), self.action_dim)),
+                        np.random.uniform(0, 1, (batch_size, self.action_dim)),
                         -1.0,
                     ),
                     axis=1,
